@@ -132,6 +132,23 @@ def formdata_lowlevel(grouped, **kw):
     return FormData(grouped, build_integral_data(grouped.integrals()), **kw)
 
 
+def sort_elements_of(form):
+    """ufl.algorithms.sort_elements applied to the elements of a form."""
+    from ufl.algorithms import extract_elements, sort_elements
+
+    return sort_elements(list(extract_elements(form)))
+
+
+def reorder_extra_domain_maps(form):
+    """The same form with the extra-domain map of every integral handed over in reversed key
+    order (dict equality ignores key order, so the result must equal the input)."""
+    itgs = []
+    for itg in form.integrals():
+        m = itg.extra_domain_integral_type_map()
+        itgs.append(itg.reconstruct(extra_domain_integral_type_map=dict(reversed(list(m.items())))) if len(m) > 1 else itg)
+    return Form(itgs)
+
+
 def fd_integrals_form(fd):
     """Re-assemble the integrals of FormData.integral_data into one form (order kept)."""
     itgs = []
@@ -526,6 +543,8 @@ class Node:
                     return {self.dec(k): self.dec(v) for k, v in x[1]}
                 if tag == "none":
                     return None
+                if tag == "set":
+                    return set(self.dec(y) for y in x[1:])
                 if tag == "np":
                     import numpy
 
